@@ -13,6 +13,7 @@ import (
 	"strings"
 
 	"github.com/Syuparn/pangaea/parser"
+	"github.com/Syuparn/pangaea/runscript"
 
 	"panmc/internal/core"
 	"panmc/internal/tk"
@@ -54,6 +55,24 @@ var bases = []string{
 	"t := {|x| x.p; x}§f := {|a: 0, b: 0| [a, b]}§f(§a: t(1),§b: t(2)§)§f(§b: t(3),§a: t(4)§)§",
 	"t := {|x| x.p; x}§g := {|a: t(3),§b: t(4)| [a, b]}§g()§f := {|a: 0| a}§f(§a: t(5),§a: t(6)§)§",
 	"t := {|x| x.p; x}§o := {§a: t(1),§b: t(2),§a: t(3)§}§m := %{§t(1): t(2),§t(1): t(3)§}§[o, m]§",
+	"t := {|x| x.p; x}§f := {|a: 0, b: 0| [a, b]}§f(§**t({a: 1}),§**t({b: 2})§)§f(**t({a: 3})§)§f(§1,§**t({b: 4})§)§f(§*t([5]),§b: t(6)§)§",
+	"t := {|x| x.p; x}§xs := [§*t([1]),§*t([2])§]§o := {§**t({a: 1}),§**t({b: 2})§}§m := %{§**t(%{1: 2}),§**t(%{3: 4})§}§[xs, o, m]§",
+}
+
+// flat: the same programs written with every bracketed construct on one line (breaks only between statements):
+// the multi-line spelling of a base must be the same program as its one-line spelling
+var flat = map[int]string{
+	10: "t := {|x| x.p; x}\nf := {|a: 0, b: 0| [a, b]}\nf(a: t(1), b: t(2))\nf(b: t(3), a: t(4))\n",
+	11: "t := {|x| x.p; x}\ng := {|a: t(3), b: t(4)| [a, b]}\ng()\nf := {|a: 0| a}\nf(a: t(5), a: t(6))\n",
+	12: "t := {|x| x.p; x}\no := {a: t(1), b: t(2), a: t(3)}\nm := %{t(1): t(2), t(1): t(3)}\n[o, m]\n",
+	13: "t := {|x| x.p; x}\nf := {|a: 0, b: 0| [a, b]}\nf(**t({a: 1}), **t({b: 2}))\nf(**t({a: 3}))\nf(1, **t({b: 4}))\nf(*t([5]), b: t(6))\n",
+	14: "t := {|x| x.p; x}\nxs := [*t([1]), *t([2])]\no := {**t({a: 1}), **t({b: 2})}\nm := %{**t(%{1: 2}), **t(%{3: 4})}\n[xs, o, m]\n",
+	1:  "a := [1, 2, 3]\na\n",
+	2:  "o := {a: 1, b: 2}\no\n",
+	3:  "m := %{1: 2, 3: 4}\nm\n",
+	4:  "f := {|a, b| a + b}\nf(1, 2)\n",
+	6:  "r := [[1], [2]]\nr\n",
+	9:  "p := {a: {b: [1]}}\np\n",
 }
 
 type tcase struct {
@@ -320,6 +339,16 @@ func gen(thorough bool, emit func(tcase)) {
 			}
 		}
 	}
+	for pi := 0; pi < 4; pi++ {
+		for _, k := range []int{0, 1, 8, 100, 1024, 4096} {
+			emit(tcase{Mode: "repl-multi", Base: pi, Size: k})
+		}
+	}
+	for bi := range bases {
+		if _, ok := flat[bi]; ok {
+			emit(tcase{Mode: "flat", Base: bi})
+		}
+	}
 	for _, nl := range []string{"LF", "CRLF", "CR"} {
 		for _, k := range []int{0, 8, 1000, 1024, 2048, 4096, 8192} {
 			emit(tcase{Mode: "file", Kind: nl, Size: k})
@@ -458,6 +487,53 @@ func check(c *core.Ctx, t tcase) {
 				return s
 			}
 			viol("token-length/"+t.Kind+"/"+bucket(t.Size), fmt.Sprintf("%s token of %d bytes", t.Kind, t.Size), trim(want), trim(got)+e, "")
+		}
+	case "repl-multi":
+		// the REPL's multi-line mode hands the lines it read to the parser: blanks at the ends of a line, lines of
+		// blanks only and comment lines are layout (or text of a raw string), exactly as in a file
+		blank := strings.Repeat(" ", t.Size)
+		progs := [][]string{
+			{"s := `a", "  b  ", "\tc " + blank + "`", "[s.len, s]"},
+			{"xs := [", "  1,", " " + blank, "  2" + blank, "]", "xs"},
+			{"x := 1   " + blank, blank + " # comment   ", "\t" + blank, "y := x + 1\t", "[x, y]"},
+			{"f := {|a,", blank + " b|", blank + "  a + b" + blank, "}", "f(1,", " " + blank + "2)"},
+		}
+		lines := progs[t.Base]
+		src := strings.Join(lines, "\n") + "\n"
+		want := c.R().EvalSrc(src, "")
+		if want.Kind != "value" {
+			c.HarnessError("repl program is not a value as a script: %q: %s", src, want.Short())
+			return
+		}
+		var out strings.Builder
+		func() {
+			defer func() {
+				if p := recover(); p != nil {
+					fmt.Fprintf(&out, "HOST PANIC: %v", p)
+				}
+			}()
+			runscript.StartREPL("", strings.NewReader("multi\n"+src+"\n"), &out)
+		}()
+		c.Nontrivial(1)
+		ok := strings.Contains(out.String(), "\n"+want.Repr+"\n") && !strings.Contains(out.String(), "Error") && !strings.Contains(out.String(), "PANIC")
+		c.Outcome("repl-multi:" + map[bool]string{true: "ok", false: "differs"}[ok])
+		if !ok {
+			viol("repl-multi-line-mode/"+bucket(t.Size), fmt.Sprintf("lines %q entered in the REPL's multi-line mode", lines), "the value the same text has as a script: "+want.Repr, fmt.Sprintf("%.400q", out.String()), "")
+		}
+	case "flat":
+		want, e0 := parse(flat[t.Base])
+		src := render(bases[t.Base], -1, "\n")
+		got, e := parse(src)
+		c.Nontrivial(1)
+		ok := e0 == "" && e == "" && got == want
+		if ok {
+			o0, o1 := c.R().EvalSrc(flat[t.Base], ""), c.R().EvalSrc(src, "")
+			ok = o0.Key() == o1.Key()
+			want, got = want+" => "+o0.Key(), got+" => "+o1.Key()
+		}
+		c.Outcome("flat:" + map[bool]string{true: "ok", false: "differs"}[ok])
+		if !ok {
+			viol("multi-line-spelling-differs-from-one-line-spelling", fmt.Sprintf("base %d (%q)", t.Base, bases[t.Base]), want+e0, got+e, "")
 		}
 	case "file":
 		// a script file run by the real binary: raw strings, comments and padding with LF / CRLF / CR line breaks
